@@ -281,85 +281,67 @@ Qed.
 
 (* ------------------------------------------------------------------ error paths *)
 
-Lemma existsb_eqb_false op l : ~ In op l -> existsb (N.eqb op) l = false.
+Lemma assoc_in {A} (l : list (N * A)) k v : assoc l k = Some v -> In (k, v) l.
 Proof.
-  intro NI. destruct (existsb (N.eqb op) l) eqn:E; [|reflexivity].
-  apply existsb_exists in E as [x [IX EX]]. apply N.eqb_eq in EX. subst. contradiction.
+  induction l as [|[k' v'] r IH]; cbn [assoc]; [discriminate|].
+  destruct (N.eqb_spec k k') as [->|NE].
+  - intro E. injection E as <-. now left.
+  - intro E. right. auto.
 Qed.
 
-Lemma not_in_sub op (l l' : list N) : (forall x, In x l' -> In x l) -> ~ In op l -> ~ In op l'.
-Proof. intros S NI I. apply NI, S, I. Qed.
+Lemma shape_is_field_eq sh a b : shape_is_field sh a b = true -> sh = ShField a b.
+Proof.
+  destruct sh; cbn; try discriminate. intro E. apply andb_true_iff in E as [E1 E2].
+  apply N.eqb_eq in E1. apply N.eqb_eq in E2. now subst.
+Qed.
+
+Lemma field_outcome_is_normal p pc s op a b succs :
+  byte p pc = Some op -> shape_of op = ShField a b -> exec p pc s = Some succs ->
+  forall c, In c (at_ (pc + fieldlen) s a b) -> In c succs.
+Proof.
+  intros B SH E c IN. unfold exec in E. rewrite B in E. cbn [opt_bind] in E. rewrite SH in E.
+  cbn [exec_shape] in E. bind_in E. bind_in E. bind_in E. bind_in E. bind_in E. injection E as <-.
+  unfold at_ in IN. rewrite X1 in IN. destruct IN as [<-|[]]. left. f_equal. unfold fieldlen. lia.
+Qed.
 
 Theorem error_path_preserves_discipline_partial p pc s op :
   byte p pc = Some op -> ~ In op err_defective -> err_discipline p pc s.
 Proof.
   intros B ND succs E c IN. unfold exec_err in IN. rewrite B in IN.
-  assert (G : is_load_group op = false).
-  { apply existsb_eqb_false. eapply not_in_sub; [|exact ND]. unfold err_defective. cbn. intuition. }
-  assert (S : is_load_self op = false).
-  { apply existsb_eqb_false. eapply not_in_sub; [|exact ND]. unfold err_defective. cbn. intuition. }
-  rewrite G, S in IN.
-  assert (NE : forall x, In x err_defective -> (op =? x) = false).
-  { intros x IX. apply N.eqb_neq. intro. subst. contradiction. }
-  rewrite (NE OP_LOAD_STORE_SELF_VAR), (NE OP_STORE_FIELD), (NE OP_STORE_FIELD_REF) in IN
-    by (unfold err_defective; cbn; intuition).
-  destruct (N.eqb_spec op OP_LOAD_FIELD_VAR) as [->|NF].
-  - (* the three hand-written paths of OP_LOAD_FIELD_VAR all equal the normal path *)
-    unfold exec in E. rewrite B in E. cbn [opt_bind] in E.
-    change (shape_of OP_LOAD_FIELD_VAR) with (ShField 2 0) in E. cbn [exec_shape] in E.
-    bind_in E. bind_in E. bind_in E. bind_in E. bind_in E. injection E as <-.
-    unfold at_ in IN. rewrite X1 in IN. destruct IN as [<-|[]]. left. f_equal. unfold fieldlen. lia.
+  destruct (assoc err_table op) as [outcomes|] eqn:A.
+  - apply assoc_in in A.
+    assert (OK : err_row_ok (op, outcomes) = true).
+    { destruct (err_row_ok (op, outcomes)) eqn:R; [reflexivity|]. exfalso. apply ND.
+      unfold err_defective. apply in_map_iff. exists (op, outcomes). split; [reflexivity|].
+      apply filter_In. split; [exact A | now rewrite R]. }
+    unfold err_row_ok in OK. cbn [fst snd] in OK. rewrite forallb_forall in OK.
+    apply in_flat_map in IN as [[a b] [IAB IC]]. cbn [fst snd] in IC.
+    specialize (OK _ IAB). cbn [fst snd] in OK. apply shape_is_field_eq in OK.
+    eapply field_outcome_is_normal; eauto.
   - rewrite E in IN. destruct (shape_of op); destruct succs as [|c0 [|c1 r]]; cbn in IN; intuition (subst; cbn; auto).
 Qed.
 
-(* ... and the instructions it excludes really break it (witnesses, confirmed on the real VM by
-   the dynamic probe: see props/C02.py origins errdefect-...) *)
-Definition wprog (bytes : list N) : program :=
-  mkProgram (code_of_list bytes) (N.of_nat (length bytes)) 16 10 10 10 [] [0].
-
-Definition refutes (p : program) (pc : N) (s : astate) : Prop :=
-  exists succs c, exec p pc s = Some succs /\ In c (exec_err p pc s) /\ ~ In c succs.
-
-Lemma refutes_by_compute p pc s :
-  err_ok p pc s = false -> (exists succs, exec p pc s = Some succs) -> refutes p pc s.
+(* when the table has no defective row the discipline holds for every instruction *)
+Theorem error_path_preserves_discipline_if_no_defect :
+  err_defective = [] -> forall p pc s, err_discipline p pc s.
 Proof.
-  intros EO [succs E]. unfold err_ok in EO. rewrite E in EO.
-  assert (X : exists c, In c (exec_err p pc s) /\
-              existsb (fun c' => (fst c =? fst c') && astate_eqb (snd c) (snd c')) succs = false).
-  { induction (exec_err p pc s) as [|c l IH]; cbn in EO; [discriminate|].
-    apply andb_false_iff in EO as [EO|EO].
-    - exists c. split; [now left | exact EO].
-    - destruct (IH EO) as [c' [I1 I2]]. exists c'. split; [now right | exact I2]. }
-  destruct X as [c [IC EC]]. exists succs, c. repeat split; auto.
-  intro IN. assert (T : existsb (fun c' => (fst c =? fst c') && astate_eqb (snd c) (snd c')) succs = true).
-  { apply existsb_exists. exists c. split; [exact IN|]. now rewrite N.eqb_refl, astate_eqb_refl. }
-  congruence.
+  intros ED p pc s. destruct (byte p pc) as [op|] eqn:B.
+  - eapply error_path_preserves_discipline_partial; [exact B|]. rewrite ED. intros [].
+  - intros succs E. unfold exec in E. rewrite B in E. discriminate.
 Qed.
 
-(* OP_STORE_FIELD when the getter throws after storeTop read the operands: skipField again *)
-Theorem error_path_STORE_FIELD_refuted :
-  refutes (wprog [OP_STORE_FIELD; 1;0;0;0; 0;0;0;0; OP_DONE]) 0 (mkA 1 None).
-Proof. apply refutes_by_compute; [vm_compute; reflexivity | eexists; vm_compute; reflexivity]. Qed.
+(* on the current tree no row is defective *)
+Theorem err_defective_now : err_defective = [].
+Proof. vm_compute. reflexivity. Qed.
 
-(* OP_STORE_FIELD_REF applied to a value that is no listener: the operands are not skipped *)
-Theorem error_path_STORE_FIELD_REF_refuted :
-  refutes (wprog [OP_STORE_FIELD_REF; 1;0;0;0; 0;0;0;0; OP_DONE]) 0 (mkA 1 None).
-Proof. apply refutes_by_compute; [vm_compute; reflexivity | eexists; vm_compute; reflexivity]. Qed.
+Theorem error_path_preserves_discipline : forall p pc s, err_discipline p pc s.
+Proof. exact (error_path_preserves_discipline_if_no_defect err_defective_now). Qed.
 
-(* OP_LOAD_STORE_SELF_VAR with self = NULL: the operands are not skipped *)
-Theorem error_path_LOAD_STORE_SELF_VAR_refuted :
-  refutes (wprog [OP_LOAD_STORE_SELF_VAR; 1;0;0;0; 0;0;0;0; OP_DONE]) 0 (mkA 1 None).
-Proof. apply refutes_by_compute; [vm_compute; reflexivity | eexists; vm_compute; reflexivity]. Qed.
-
-(* OP_LOAD_LOCAL_VAR (loadTop) when the setter throws (read-only field): the value is not popped *)
-Theorem error_path_LOAD_VAR_refuted :
-  refutes (wprog [OP_LOAD_LOCAL_VAR; 1;0;0;0; 0;0;0;0; OP_DONE]) 0 (mkA 1 None).
-Proof. apply refutes_by_compute; [vm_compute; reflexivity | eexists; vm_compute; reflexivity]. Qed.
-
-Theorem error_path_preserves_discipline_refuted :
-  exists p pc s, ~ err_discipline p pc s.
+(* the boolean form the driver evaluates agrees *)
+Lemma err_ok_of_discipline p pc s : err_discipline p pc s -> err_ok p pc s = true.
 Proof.
-  exists (wprog [OP_STORE_FIELD; 1;0;0;0; 0;0;0;0; OP_DONE]), 0, (mkA 1 None).
-  destruct error_path_STORE_FIELD_refuted as [succs [c [E [I NI]]]].
-  intro D. exact (NI (D succs E c I)).
+  intro D. unfold err_ok. destruct (exec p pc s) as [succs|] eqn:E; [|reflexivity].
+  apply forallb_forall. intros c IC. apply existsb_exists. exists c. split.
+  - exact (D succs eq_refl c IC).
+  - now rewrite N.eqb_refl, astate_eqb_refl.
 Qed.
